@@ -106,7 +106,9 @@ example : (runCmd exEnv exCmd exFs).2 = [(22, ⟨.junk, []⟩), (12, ⟨.obj, [1
 /-- **C14 (a failing front end leaves no partial output).**  Under the freshness assumptions `Setup`
     (mkstemp hands out pairwise distinct names `ts` that are not named on the command line and did not
     exist; the requested outputs are pairwise distinct and are not inputs), for EVERY fault schedule:
-    if the log of the run contains a failing `wait` for cc1 (exit code or signal), then the inputs split
+    if the log of the run contains a failing `wait` for cc1 (exit code or signal) and it is the FRONT END that failed
+    (`hfront`: not the one late failure cc1 has, the write of the `-MD` dependency file after the output was written —
+    that case is `C14_late_dep_failure`), then the inputs split
     as `pre ++ u :: post` where `u` is the translation unit whose front end failed — it is the
     `cCount pre`-th cc1 invocation of the schedule — and in the terminal world
     * the output of every earlier unit (`-S`, `-c`, `-E -o`) is complete: right class, made from its source;
@@ -116,7 +118,8 @@ example : (runCmd exEnv exCmd exFs).2 = [(22, ⟨.junk, []⟩), (12, ⟨.obj, [1
     * nothing was started after the failing wait: the rest of the log is the atexit cleanup. -/
 theorem C14_no_partial_output (env : Env P) (cmd : Cmd P) (fs : FS P) (ts : List P)
     (S : Setup env cmd fs ts) (st : Status)
-    (h : Event.wait .cc1 st ∈ (runCmd env cmd fs).1.log) (hbad : st.wait ≠ 0) :
+    (h : Event.wait .cc1 st ∈ (runCmd env cmd fs).1.log) (hbad : st.wait ≠ 0)
+    (hfront : ∀ k, (env.sched .cc1 k).leaves ≠ .complete) :
     ∃ (pre : List (Input P)) (u : Input P) (post : List (Input P)),
       cmd.inputs = pre ++ u :: post ∧ effKind cmd.mode u.kind = .C ∧
       st = (env.sched .cc1 (cCount cmd pre)).status ∧
@@ -146,14 +149,16 @@ theorem C14_no_partial_output (env : Env P) (cmd : Cmd P) (fs : FS P) (ts : List
     subst hbe
     have hlast : e.log.getLast? = some (Event.wait Prog.cc1 st) := by rw [hl]; simp
     -- rejected commands never run cc1
-    by_cases hacc : cmd.inputs.isEmpty = false ∧ multiO cmd = false
+    by_cases hacc : ¬ (cmd.inputs.isEmpty = true ∧ cmd.nExtra = 0) ∧ multiO cmd = false
     · have hcomp : compile cmd = compileLoop cmd 0 cmd.inputs := by
-        unfold compile; simp [hacc.1, hacc.2]
+        unfold compile; rw [if_neg hacc.1]; simp [hacc.2]
       have hloop := loop_lemma env cmd fs ts S cmd.inputs [] (init cmd, fs) (by simp) (loopInv_init cmd fs ts)
       simp only [totalTemps] at hloop
       rw [← hcomp, hd] at hloop
       obtain ⟨pre, u, post, y, hsplit, hI, hF⟩ := hloop st hlast
-      obtain ⟨hk, hst, hts, hyt, hfr⟩ := hF st hlast
+      obtain ⟨hk, hst, hts, hyt, hfr0⟩ := hF st hlast
+      have hfr : ∀ p, p ∉ e.tmpfiles → efs.get p = y.2.get p := fun p hp => by
+        rw [hfr0 p hp, if_neg (fun h => hfront _ h.1)]
       refine ⟨pre, u, post, hsplit, hk, by rw [hst, hI.ncc1], ?_, ?_, ⟨l, e.tmpfiles.map Event.unlink ++ [Event.exit code], ?_, ?_⟩⟩
       · intro v hv hvu
         have hvin : v ∈ cmd.inputs := by rw [hsplit]; simp [hv]
@@ -174,14 +179,13 @@ theorem C14_no_partial_output (env : Env P) (cmd : Cmd P) (fs : FS P) (ts : List
     · exfalso
       have hfail : ∃ why, compile cmd = [Act.fail why] := by
         unfold compile
-        by_cases h1 : cmd.inputs.isEmpty = true
-        · exact ⟨.noInput, by simp [h1]⟩
-        · have h1' : cmd.inputs.isEmpty = false := by simpa using h1
-          have h2 : multiO cmd = true := by
+        by_cases h1 : cmd.inputs.isEmpty = true ∧ cmd.nExtra = 0
+        · exact ⟨.noInput, by rw [if_pos h1]⟩
+        · have h2 : multiO cmd = true := by
             cases hm : multiO cmd with
             | true => rfl
-            | false => exact absurd ⟨h1', hm⟩ hacc
-          exact ⟨.multiO, by simp [h1', h2]⟩
+            | false => exact absurd ⟨h1, hm⟩ hacc
+          exact ⟨.multiO, by rw [if_neg h1]; simp [h2]⟩
       obtain ⟨why, hwhy⟩ := hfail
       rw [hwhy] at hd
       simp only [doActs, doAct] at hd
@@ -216,10 +220,132 @@ example : Event.wait .cc1 (.signal 8) ∈ (runCmd exSEnv exS exSFs).1.log ∧ (S
 example : (runCmd exSEnv exS exSFs).2.get 11 = some ⟨.asm, [1]⟩ ∧ (runCmd exSEnv exS exSFs).2.get 21 = some ⟨.orig, [8]⟩ ∧
     (runCmd exSEnv exS exSFs).2.get 31 = some ⟨.orig, [9]⟩ ∧ (runCmd exSEnv exS exSFs).1.phase = .done 1 := by decide
 
+/-- **C14 (the one late failure of cc1).**  Same setting, but the failing cc1 is one that had already written its whole
+    output (`Leaves.complete`: under `-MD` the write of the dependency file, which comes last, failed): the exit status
+    is still 1 (`C14_status`) and nothing is started afterwards; the path this child writes directly — the `.s` file
+    under `-S`, the `-o` file under `-E`; under `-c` and when linking it is a temporary, which `C14_no_temps` removes —
+    holds the COMPLETE translation of its unit, and every other path is as `C14_no_partial_output` says: earlier units
+    complete, everything else untouched.  So even this failure leaves no partial file. -/
+theorem C14_late_dep_failure (env : Env P) (cmd : Cmd P) (fs : FS P) (ts : List P)
+    (S : Setup env cmd fs ts) (st : Status)
+    (h : Event.wait .cc1 st ∈ (runCmd env cmd fs).1.log) (hbad : st.wait ≠ 0) :
+    ∃ (pre : List (Input P)) (u : Input P) (post : List (Input P)),
+      cmd.inputs = pre ++ u :: post ∧ effKind cmd.mode u.kind = .C ∧
+      st = (env.sched .cc1 (cCount cmd pre)).status ∧
+      ((env.sched .cc1 (cCount cmd pre)).leaves = .complete →
+        (∀ p, cc1Out cmd u = some p → (∀ v ∈ pre, isUnit cmd v = true → unitOutput cmd v ≠ p) →
+          (runCmd env cmd fs).2.get p = some ⟨unitCls cmd, fs.origins u.path⟩) ∧
+        (∀ p, cc1Out cmd u ≠ some p → (∀ v ∈ pre, isUnit cmd v = true → unitOutput cmd v ≠ p) →
+          (runCmd env cmd fs).2.get p = fs.get p)) := by
+  obtain ⟨code, e, efs, hr, hcr, hcase⟩ := runCmd_spec env cmd fs
+  obtain ⟨_, h2, _, h4⟩ := cleanupAll_spec code e.tmpfiles e efs
+  have hbadE : Event.bad (Event.wait Prog.cc1 st : Event P) = true := by simp [Event.bad, hbad]
+  rw [hr] at h ⊢
+  rw [h2] at h
+  have hin : Event.wait Prog.cc1 st ∈ e.log := by
+    simp only [List.mem_append, List.mem_map, List.mem_singleton] at h
+    rcases h with (h | ⟨_, _, h⟩) | h
+    · exact h
+    · cases h
+    · cases h
+  rcases hcase with ⟨_, _, hnb⟩ | ⟨_, hd, l, b, hl, hlb, hb⟩
+  · have := hnb _ hin; rw [hbadE] at this; cases this
+  · have hbe : b = Event.wait Prog.cc1 st := by
+      rw [hl] at hin
+      rcases List.mem_append.mp hin with h | h
+      · have := hlb _ h; rw [hbadE] at this; cases this
+      · exact (List.mem_singleton.mp h).symm
+    subst hbe
+    have hlast : e.log.getLast? = some (Event.wait Prog.cc1 st) := by rw [hl]; simp
+    by_cases hacc : ¬ (cmd.inputs.isEmpty = true ∧ cmd.nExtra = 0) ∧ multiO cmd = false
+    · have hcomp : compile cmd = compileLoop cmd 0 cmd.inputs := by
+        unfold compile; rw [if_neg hacc.1]; simp [hacc.2]
+      have hloop := loop_lemma env cmd fs ts S cmd.inputs [] (init cmd, fs) (by simp) (loopInv_init cmd fs ts)
+      simp only [totalTemps] at hloop
+      rw [← hcomp, hd] at hloop
+      obtain ⟨pre, u, post, y, hsplit, hI, hF⟩ := hloop st hlast
+      obtain ⟨hk, hst, hts, hyt, hfr0⟩ := hF st hlast
+      have hnc : y.1.nCc1 = cCount cmd pre := hI.ncc1
+      have huin : u ∈ cmd.inputs := by rw [hsplit]; simp
+      have hupath : y.2.origins u.path = fs.origins u.path := by
+        apply FS.origins_congr
+        apply hI.frame
+        · intro hm
+          have : u.path ∈ ts := by rw [hI.tmps] at hm; exact List.mem_of_mem_take hm
+          exact S.notInput _ this (List.mem_map.mpr ⟨u, huin, rfl⟩)
+        · intro v hv hvu e'
+          have hvin : v ∈ cmd.inputs := by rw [hsplit]; simp [hv]
+          exact S.reqNotInput _ (unitOutput_requested hvin hvu) (e' ▸ List.mem_map.mpr ⟨u, huin, rfl⟩)
+      refine ⟨pre, u, post, hsplit, hk, by rw [hst, hnc], ?_⟩
+      intro hlv
+      rw [← hnc] at hlv
+      constructor
+      · intro p hcp hne
+        -- the path a cc1 child writes directly is a requested output, hence not a temporary
+        have hpreq : p ∈ requested cmd := by
+          unfold cc1Out at hcp
+          split at hcp
+          · cases hcp
+          · rename_i hdo
+            have hdo' : cmd.depsOnly = false := by simpa using hdo
+            cases hm : cmd.mode with
+            | E =>
+              simp only [hm] at hcp
+              have hk' := hk
+              rw [hm] at hk'
+              have hu : isUnit cmd u = true := by simp [isUnit, hdo', hm, hk', hcp]
+              have := unitOutput_requested huin hu
+              simpa [unitOutput, hcp] using this
+            | S =>
+              simp only [hm] at hcp
+              injection hcp with hcp
+              have hk' := hk
+              rw [hm] at hk'
+              have hu : isUnit cmd u = true := by simp [isUnit, hdo', hm, hk']
+              exact hcp ▸ unitOutput_requested huin hu
+            | c => simp [hm] at hcp
+            | link => simp [hm] at hcp
+        have hnt : p ∉ e.tmpfiles := fun hm => S.notReq _ (hts _ hm) hpreq
+        rw [h4, if_neg hnt, hfr0 p hnt, if_pos ⟨hlv, hcp⟩, hupath]
+      · intro p hcp hne
+        rw [h4]
+        by_cases hpt : p ∈ e.tmpfiles
+        · rw [if_pos hpt, S.absent p (hts p hpt)]
+        · rw [if_neg hpt, hfr0 p hpt, if_neg (fun h => hcp h.2)]
+          exact hI.frame p (fun hy => hpt (hyt p hy)) hne
+    · exfalso
+      have hfail : ∃ why, compile cmd = [Act.fail why] := by
+        unfold compile
+        by_cases h1 : cmd.inputs.isEmpty = true ∧ cmd.nExtra = 0
+        · exact ⟨.noInput, by rw [if_pos h1]⟩
+        · have h2 : multiO cmd = true := by
+            cases hm : multiO cmd with
+            | true => rfl
+            | false => exact absurd ⟨h1, hm⟩ hacc
+          exact ⟨.multiO, by rw [if_neg h1]; simp [h2]⟩
+      obtain ⟨why, hwhy⟩ := hfail
+      rw [hwhy] at hd
+      simp only [doActs, doAct] at hd
+      injection hd with hd
+      have : e.log = [Event.error why] := by
+        have := congrArg (fun x => x.1.log) hd
+        simpa [DState.emit, DState.exitWith, init] using this.symm
+      rw [this] at hlast
+      simp at hlast
+
+/-- non-vacuity: `-S -MD a.c b.c`, the dependency write of `b.c`'s cc1 fails after `b.s` was written: `a.s`, `b.s` complete,
+    `c.s`-like sentinel 31 untouched, status 1 -/
+private def exLateEnv : Env Nat :=
+  { mode := .S, sched := fun p k => if p = .cc1 ∧ k = 1 then ⟨.exit 1, .complete⟩ else .ok, fresh := fun _ => none }
+
+example : Event.wait .cc1 (.exit 1) ∈ (runCmd exLateEnv exS exSFs).1.log ∧
+    (runCmd exLateEnv exS exSFs).2.get 11 = some ⟨.asm, [1]⟩ ∧ (runCmd exLateEnv exS exSFs).2.get 21 = some ⟨.asm, [2]⟩ ∧
+    (runCmd exLateEnv exS exSFs).2.get 31 = some ⟨.orig, [9]⟩ ∧ (runCmd exLateEnv exS exSFs).1.phase = .done 1 := by decide
+
 /-- **C14 (success: exactly the requested outputs).**  Under `Setup`, for a command the driver accepts and
     a schedule without faults: the driver exits with status 0; every requested per-unit output holds the
-    complete translation of its own source; when linking, the executable is linked from all inputs in
-    command-line order; every path that is NOT a requested output — every temporary, every input, `a.out`
+    complete translation of its own source; when linking (no `-c`/`-S`/`-E`, no `-M`), the executable is linked from
+    all inputs in command-line order; every path that is NOT a requested output — every temporary, every input, `a.out`
     when not linking, `<stem>.o` of a `.s` input when linking — has exactly the content it had before
     (absent stays absent). -/
 theorem C14_success_outputs (env : Env P) (cmd : Cmd P) (fs : FS P) (ts : List P)
@@ -228,7 +354,7 @@ theorem C14_success_outputs (env : Env P) (cmd : Cmd P) (fs : FS P) (ts : List P
     (runCmd env cmd fs).1.phase = .done 0 ∧
     (∀ u ∈ cmd.inputs, isUnit cmd u = true →
       (runCmd env cmd fs).2.get (unitOutput cmd u) = some ⟨unitCls cmd, fs.origins u.path⟩) ∧
-    (cmd.mode = .link → (runCmd env cmd fs).2.get (cmd.out.getD cmd.aout) =
+    (cmd.mode = .link → cmd.depsOnly = false → (runCmd env cmd fs).2.get (cmd.out.getD cmd.aout) =
       some ⟨.exe, cmd.inputs.flatMap (fun u => fs.origins u.path)⟩) ∧
     (∀ p, p ∉ requested cmd → (runCmd env cmd fs).2.get p = fs.get p) := by
   obtain ⟨code, e, efs, hr, hcr, hcase⟩ := runCmd_spec env cmd fs
@@ -245,25 +371,25 @@ theorem C14_success_outputs (env : Env P) (cmd : Cmd P) (fs : FS P) (ts : List P
     simp only at htf hfs
     have hsub : ∀ t ∈ e.tmpfiles, t ∈ ts := fun t ht => by
       rw [htf, hI.tmps] at ht; exact List.mem_of_mem_take ht
-    have hexe : cmd.mode = .link → cmd.out.getD cmd.aout ∈ requested cmd := by
-      intro hm; simp [requested, hm]
+    have hexe : cmd.mode = .link → cmd.depsOnly = false → cmd.out.getD cmd.aout ∈ requested cmd := by
+      intro hm hd; simp [requested, hm, hd]
     rw [hr]
     refine ⟨h1, ?_, ?_, ?_⟩
     · intro u hu huu
       have hnt : unitOutput cmd u ∉ e.tmpfiles := fun hm => S.notReq _ (hsub _ hm) (unitOutput_requested hu huu)
       rw [h4, if_neg hnt, hfs]
-      have : ¬ (cmd.mode = .link ∧ y.1.ldArgs ≠ []) := fun h => isUnit_not_link huu h.1
+      have : ¬ (cmd.mode = .link ∧ cmd.depsOnly = false ∧ y.1.ldArgs ≠ []) := fun h => isUnit_not_link huu h.1
       rw [if_neg this]
       exact hI.units u hu huu
-    · intro hm
-      have hnt : cmd.out.getD cmd.aout ∉ e.tmpfiles := fun h => S.notReq _ (hsub _ h) (hexe hm)
-      have hld := hI.ldOrig hm
+    · intro hm hd
+      have hnt : cmd.out.getD cmd.aout ∉ e.tmpfiles := fun h => S.notReq _ (hsub _ h) (hexe hm hd)
+      have hld := hI.ldOrig ⟨hm, hd⟩
       have hne : y.1.ldArgs ≠ [] := by
         intro h0
         rw [h0] at hld
         simp only [List.map_nil] at hld
         exact hacc.1 (List.map_eq_nil_iff.mp hld.symm)
-      rw [h4, if_neg hnt, hfs, if_pos ⟨hm, hne⟩, FS.get_set_self]
+      rw [h4, if_neg hnt, hfs, if_pos ⟨hm, hd, hne⟩, FS.get_set_self]
       rw [List.flatMap_def, hld, ← List.flatMap_def]
     · intro p hp
       rw [h4]
@@ -274,8 +400,8 @@ theorem C14_success_outputs (env : Env P) (cmd : Cmd P) (fs : FS P) (ts : List P
           apply hI.frame p (by rw [← htf]; exact hpt)
           intro u hu huu e'
           exact hp (by rw [← e']; exact unitOutput_requested hu huu)
-        by_cases hl : cmd.mode = .link ∧ y.1.ldArgs ≠ []
-        · rw [if_pos hl, FS.get_set_ne _ _ (fun e' => hp (by rw [e']; exact hexe hl.1))]
+        by_cases hl : cmd.mode = .link ∧ cmd.depsOnly = false ∧ y.1.ldArgs ≠ []
+        · rw [if_pos hl, FS.get_set_ne _ _ (fun e' => hp (by rw [e']; exact hexe hl.1 hl.2.1))]
           exact hframe
         · rw [if_neg hl]; exact hframe
   · exfalso
